@@ -345,6 +345,15 @@ def run(ctx):
             detail = []
             for bi in sorted(comp):
                 t = b.term(bi)
+                if t["t"] == "switch" and t.get("dty") != "bool":
+                    # `match sock.read(..).await? { 0 => return Err(..), n => .. }`
+                    rd_ = render(strip_deep(sym.operand(t["discr"])))
+                    if re.search(r"AsyncReadExt::read\(|\$read|read⟵", rd_):
+                        zero_exits = [tb for v, tb in b.switch_edges(bi) if v == 0 and tb not in comp]
+                        detail.append({"test": "match %s { 0 => … }" % rd_[:60], "leaves_loop": bool(zero_exits)})
+                        if zero_exits:
+                            ok = True
+                    continue
                 if t["t"] != "switch" or t.get("dty") != "bool":
                     continue
                 at = bool_atom(sym.operand(t["discr"]))
@@ -415,13 +424,22 @@ def check_plain_reads(ctx, f):
         for c in b.calls():
             if c.name == "read" and (c.trait or "").endswith("AsyncReadExt") and not b.is_cleanup(c.bb):
                 plain.append((root_fn(f, n), K.alpha(K.arg_renders(c)[1], b), c.where()))
-    who = sorted({x[0] for x in plain})
-    ctx.ob("R-WHO", "AsyncReadExt::read-callers", who == ["rtr::pdu::Error::skip_payload", "rtr::server::Connection::<Sock, Source>::read_header"],
-           "a plain `read` (which may return fewer bytes than asked for) is used only by the two cursor loops; every fixed-size "
-           "PDU part is filled by read_exact", detail=who)
+    # every plain read sits on a cycle of its function (a cursor loop); fixed-size parts are filled by read_exact
+    not_in_loop = []
+    for n, b in f.bodies.items():
+        if not n.startswith("rtr::"):
+            continue
+        sccs = b.cycles_sccs()
+        for c in b.calls():
+            if c.name == "read" and (c.trait or "").endswith("AsyncReadExt") and not b.is_cleanup(c.bb):
+                if not any(c.bb in comp for comp in sccs):
+                    not_in_loop.append("%s @ %s" % (short(root_fn(f, n)), c.where()))
+    ctx.ob("R-WHO", "AsyncReadExt::read-callers", not not_in_loop and len(plain) >= 2,
+           "a plain `read` (which may return fewer bytes than asked for) is used only inside cursor loops; every fixed-size "
+           "PDU part is filled by read_exact", detail={"outside_a_loop": not_in_loop, "plain_reads": sorted({x[0] for x in plain})})
     for fn, buf, where in plain:
-        ok = re.match(r"^IndexMut::index_mut\(\^, ops::RangeFrom::RangeFrom\{start: \$\}\)$", buf) is not None or \
-            re.search(r"RangeTo\{end: cmp::min\(\$, ", buf) is not None
+        ok = re.match(r"^(⟵)?IndexMut::index_mut\(.+, ops::RangeFrom::RangeFrom\{start: [^{}]+\}\)$", buf) is not None or \
+            re.search(r"RangeTo\{end: cmp::min\(", buf) is not None
         ctx.ob("R-FLOW", "%s:read-is-bounded-by-what-is-missing" % short(fn), ok,
                "%s never asks `read` for more than the bytes still missing from the current PDU (the rest of the stream belongs "
                "to the next PDU)" % short(fn), where=where, detail=buf)
